@@ -78,7 +78,7 @@ def rand_call(rng, t0, dt, first):
     # exact ties are decided by binary64 round-off of the accumulated time in the implementation
     ts = [float(x) if x == t0 else float(np.round(x * 512) / 512 + 1.0 / 1024) for x in ts]
     mode = int(rng.integers(3)) if ts else 1
-    stop = None if mode == 0 else ({'maxit': nst} if mode == 1 else {'tottime': float(np.round((t0 + T) * 512) / 512), 'maxit': nst + int(rng.integers(-1, 2))})
+    stop = None if mode == 0 else ({'maxit': nst} if mode == 1 else {'tottime': float(np.round((t0 + T) * 512) / 512 + 1.0 / 1024), 'maxit': nst + int(rng.integers(-1, 2))})
     freqs = [int(x) for x in rng.choice([1, 2, 3, 5], size=int(rng.integers(0, 3)))]
     return dict(kind=kind, tsave=ts, stop=stop, freqs=freqs, dtlocal=bool(rng.random() < 0.25))
 
